@@ -46,7 +46,7 @@ def lib_geom(name):
     return LIB_GEOM[name]
 
 
-def gen_syn_module(rng, memtype, P_ns, nphases, tight=False, big_ras=False):
+def gen_syn_module(rng, memtype, P_ns, nphases, tight=False, big_ras=False, geom=None):
     """Synthetic datasheet entry: ns/ck pairs sized in controller cycles of period P_ns.
 
     tight: values constructed backwards from a cycle count so the conversion leaves (almost) no slack."""
@@ -90,12 +90,14 @@ def gen_syn_module(rng, memtype, P_ns, nphases, tight=False, big_ras=False):
     colbits = rng.choice([8, 9, 10, 10, 11, 12])
     # the address bus (max(rowbits, colbits) wide) must carry A10 and, beyond it, the shifted column bits
     rowbits = rng.choice([r for r in (11, 12, 13, 14, 16) if colbits <= 10 or r > colbits])
+    if geom is not None:
+        bankbits, rowbits, colbits = geom
     return {"kind": "syn", "memtype": memtype, "nbanks": 1 << bankbits, "nrows": 1 << rowbits, "ncols": 1 << colbits,
             "tech": tech, "speed": speed}
 
 
 def gen_core(rng, lib=None, nranks=None, tight=False, big_ras=False, refresh=True, nports=None,
-             memtype=None, zqcs=None, short_refi=True):
+             memtype=None, zqcs=None, short_refi=True, geom=None, model_phases=False):
     memtype = memtype or rng.choice(["SDR", "DDR", "LPDDR", "DDR2", "DDR3", "DDR3", "DDR4"])
     lib = rng.random() < 0.3 if lib is None else lib
     core = {}
@@ -115,7 +117,9 @@ def gen_core(rng, lib=None, nranks=None, tight=False, big_ras=False, refresh=Tru
     else:
         nph = {"SDR": rng.choice([1, 1, 2]), "DDR": 2, "LPDDR": 2, "DDR2": 2, "DDR3": rng.choice([2, 4, 4]), "DDR4": 4}[memtype]
         period = rng.choice([5000, 8000, 10000, 10000, 12500, 13333])
-        m = gen_syn_module(rng, memtype, period / 1000.0, nph, tight=tight, big_ras=big_ras)
+        if model_phases and not (memtype == "SDR" and nph == 2):
+            nph = MODEL_NPHASES[memtype]      # the phase counts the bundled DRAM model's burst table is written for
+        m = gen_syn_module(rng, memtype, period / 1000.0, nph, tight=tight, big_ras=big_ras, geom=geom)
         core["module"] = m
         cl = rng.randint(2, 11)
         cwl = None if memtype in ("SDR", "DDR", "LPDDR") else rng.randint(1, 8)
